@@ -440,7 +440,7 @@ def check_C02(ctx):
             for rk in ('inst', 'binst'):
                 cases.append((tid, rk, m, hx, kind, 'hostile T%d %s %s %s' % (tid, rk, m, hx)))
             if 'handle' not in pool.caps[tid]:
-                for rk in ('buf', 'ped', 'bbuf', 'bped', 'bstream'):
+                for rk in ('buf', 'ped', 'bbuf', 'bped', 'bstream', 'bfd'):
                     libcases.append((tid, rk, m, 'decr T%d %s %d %s' % (tid, rk, hexlen(m), m)))
         for _ in range(4 if ctx.quick else 40):
             n = ctx.rng.randint(0, 32)
@@ -1306,6 +1306,22 @@ def check_C18(ctx):
         if f.get('st') != '0' or got != want:
             ctx.violate('wire-table-hash', 'the table named %r carries hash %s on the wire; SipHash-2-4 of the name under the table keys is %d: %s -> %s' %
                         (t[3], got, want, line, o[:120]), {'case': line, 'output': o, 'expected_hash': want})
+    # interfaces declared with NOP_INTERFACE / NOP_INTERFACE32 and methods with NOP_METHOD: what the macros computed
+    import rpcgen
+    ifaces, _sets = rpcgen.interfaces(pool.types)
+    hl = ['rpc %d 0 -1 | H' % k for k in range(len(ifaces))]
+    ho_ = run_parallel([os.path.join(pool.dir, 'rpc')], hl, env=ASAN_ENV, what='rpc')
+    for k, (f, line, o) in enumerate(zip(ifaces, hl, ho_)):
+        ctx.count('interface-macros', line)
+        g = sx.fields(o) if o.startswith('ihash=') else {}
+        ih = nopgen.siphash24(f['name'].encode() + b'\0', 0xdeadcafebaadf00d, 0x0123456789abcdef)
+        want = []
+        for nm, sel, rt, ats, alt in f['methods']:
+            v = sel if sel is not None else nopgen.siphash24(nm.encode() + b'\0', ih, 0x0123456789abcdef)
+            want.append(str(v & 0xffffffff if (f['sel32'] and sel is None) else v))
+        if g.get('ihash') != str(ih) or g.get('sels') != ','.join(want):
+            ctx.violate('compile-time-hash', 'interface %r: NOP_INTERFACE / NOP_METHOD computed hash %s and selectors %s; SipHash-2-4 of the names under the interface keys gives %d and %s' %
+                        (f['name'], g.get('ihash'), g.get('sels'), ih, ','.join(want)), {'case': line, 'output': o})
     return finish_with_proofs(ctx)
 
 
